@@ -365,7 +365,7 @@ def r204(ctx, res):
             continue
         n += 1
         hooks = sorted(COPY_HOOKS & (set(c.methods) | set(c.method_aliases)))
-        slots = "__slots__" in c.attrs
+        slots = False  # __slots__ alone does not change copying: the default deep copy handles slotted objects (copyreg)
         for hk in c.copy_hooks.values():
             verify_deepcopy_hook(ctx, res, c, hk)
         ok = not hooks and not slots
